@@ -320,8 +320,14 @@ fn ambiguity_specs() -> Vec<(String, CmdSpec)> {
     inst.aliases.push("i".into());
     inst.visible_aliases.push("in".into());
     c.subs.push(inst);
-    c.subs.push(CmdSpec::new("info"));
-    c.subs.push(CmdSpec::new("init"));
+    // long flag subcommands: `--sync` (info) next to the alias `--synopsis` of `--look` (init)
+    let mut info = CmdSpec::new("info");
+    info.long_flag = Some("sync".into());
+    c.subs.push(info);
+    let mut init = CmdSpec::new("init");
+    init.long_flag = Some("look".into());
+    init.long_flag_aliases.push("synopsis".into());
+    c.subs.push(init);
     let mut o = ArgSpec::opt("output", None, Some("output"));
     o.aliases.push("o".into());
     o.aliases.push("out".into());
@@ -459,6 +465,48 @@ fn judge_ambiguity(spec: &CmdSpec, cmd: &clap::Command, h: &mut Hist) -> Vec<(St
                             bad.push(("an ambiguous subcommand prefix was silently resolved".into(), format!("{} could mean {:?}; gave help", p, cands), case));
                         }
                     }
+                }
+            }
+        }
+    }
+    // prefixes of long flag subcommands and their aliases (`--<prefix>`); the names are chosen so
+    // that no argument's long name shares a prefix with them
+    let mut lnames: Vec<(String, String)> = vec![];
+    for s in &spec.subs {
+        for k in s.long_flag.iter().chain(s.long_flag_aliases.iter()).chain(s.visible_long_flag_aliases.iter()) {
+            lnames.push((k.clone(), s.name.clone()));
+        }
+    }
+    let mut lp: BTreeSet<String> = BTreeSet::new();
+    for (k, _) in &lnames {
+        for cut in 1..=k.len() {
+            lp.insert(k[..cut].to_string());
+        }
+    }
+    for p in &lp {
+        h.evaluations += 1;
+        h.transitions += 1;
+        h.validated += 1;
+        let exact: Vec<&(String, String)> = lnames.iter().filter(|(k, _)| k == p).collect();
+        let mut cands: Vec<&String> = lnames.iter().filter(|(k, _)| k.starts_with(p.as_str())).map(|(_, id)| id).collect();
+        cands.sort();
+        cands.dedup();
+        let argv = vec![format!("--{}", p).into_bytes()];
+        let case = json!({"ambiguity": true, "argv_hex": hex_argv(&argv)});
+        let want = exact.first().map(|e| e.1.clone()).or_else(|| if cands.len() == 1 { Some(cands[0].clone()) } else { None });
+        match parse(cmd, spec, &argv) {
+            Outcome::Ok(ob) => {
+                let got = ob.sub.as_ref().map(|s| s.0.clone());
+                match (&want, &got) {
+                    (None, Some(g)) => bad.push(("an ambiguous long-flag-subcommand prefix was silently resolved".into(), format!("--{} could mean {:?}; dispatched {}", p, cands, g), case)),
+                    (Some(w), g) if g.as_ref() != Some(w) => bad.push(("a long flag subcommand name/prefix resolved to something else".into(), format!("--{} -> {}, dispatched {:?}", p, w, g), case)),
+                    _ => {}
+                }
+                h.nontrivial += 1;
+            }
+            Outcome::Err(e) => {
+                if let Some(w) = want {
+                    bad.push(("a unique long-flag-subcommand prefix / exact name was rejected".into(), format!("--{} -> {} gave {}", p, w, e.kind), case));
                 }
             }
         }
